@@ -735,6 +735,15 @@ def shaped_proto(shapes, pre=(), post=(), ret=None, style='shape', between=None)
     return p
 
 
+def zero_padding(proto, vals):
+    """padding bytes of aggregates given as C type trees carry no value; an implementation may copy them or load a
+    narrower member zero-extended (gcc: movss / movl), so they are passed as zero: every conforming image then agrees"""
+    cv = proto.get('cval')
+    if not cv:
+        return vals
+    return [b if c is None else bytes(x if i in set(c) else 0 for i, x in enumerate(b)) for b, c in zip(vals, cv)]
+
+
 def shaped_core():
     """every aimed shape (gen_c05_ctypes.aimed_shapes) passed in registers (packed while both register files last) and
     the first one of each prototype also returned by value"""
